@@ -761,6 +761,10 @@ class Executor:
             if expr.id in getattr(self, "param_names", ()):  # pragma: no cover
                 pass
             self.st.env[expr.id] = new
+            if own is not None:
+                # the local name is an alias of a field's container (`d = rec["k"]; d[i] = v`): the
+                # mutation is visible through the field as well
+                self.st.set_field(own[0], own[1], new)
         elif isinstance(expr, (ast.Attribute, ast.Subscript)):
             self.assign(expr, new)
         else:
@@ -966,12 +970,30 @@ class Executor:
         names = set()
         heap = set()
         soft = self._soft_mods = set()  # solvers whose SOFT constraints the body may change
+        aliases: dict = {}  # local name -> field it was bound to inside the body
         ex = self
 
         class Vis(ast.NodeVisitor):
             def visit_Assign(s, n):
                 for t in n.targets:
                     s.tgt(t)
+                # `x = rec["k"]` / `x = cast(T, rec["k"])` inside the body: x aliases that field
+                val = n.value
+                if isinstance(val, ast.Call) and isinstance(val.func, ast.Name) and val.func.id == "cast" and len(val.args) == 2:
+                    val = val.args[1]
+                if (
+                    len(n.targets) == 1
+                    and isinstance(n.targets[0], ast.Name)
+                    and isinstance(val, ast.Subscript)
+                    and isinstance(val.slice, ast.Constant)
+                    and isinstance(val.slice.value, str)
+                ):
+                    try:
+                        o = ex.eval(val.value)
+                    except Exception:
+                        o = None
+                    if isinstance(o, VRef) and ex.st.obj(o.ref)["kind"] == "rec":
+                        aliases[n.targets[0].id] = ("field", o.ref, val.slice.value)
                 s.generic_visit(n)
 
             def visit_AugAssign(s, n):
@@ -1017,6 +1039,8 @@ class Executor:
                     root = t
                     while isinstance(root, (ast.Subscript, ast.Attribute)):
                         root = root.value
+                    if isinstance(root, ast.Name) and root.id in aliases:
+                        heap.add(aliases[root.id])
                     if isinstance(root, ast.Name):
                         v = ex.st.env.get(root.id)
                         if isinstance(v, VRef) and ex.st.obj(v.ref)["kind"] == "df":
@@ -1075,6 +1099,9 @@ class Executor:
                                         o = ex.st.obj(o.ref)["fields"][pth]
                                     if len(path) > 1:
                                         heap.add(("field", o.ref, path[-1]))
+                        elif f.attr in MUT and root.id in aliases:
+                            heap.add(aliases[root.id])
+                            names.add(root.id)
                         elif f.attr in MUT and not isinstance(v, VRef) and root.id in ex.st.env:
                             # in-place mutation of a local container, whatever its current value is (an
                             # untyped empty literal becomes opaque after the havoc: the contract must type it)
@@ -1677,6 +1704,15 @@ class Executor:
     # ---- calls ---------------------------------------------------------------------------
     def expr_Call(self, node):
         f = self.eval(node.func)
+        if isinstance(f, VOpaque) and getattr(f, "kind", None) == "tactic" and len(node.args) == 1 and not node.keywords:
+            # t(F) for a z3 tactic: an opaque goal that remembers the formula it was made from (TB-tac)
+            fv = self.eval(node.args[0])
+            if not isinstance(fv, VForm):
+                raise Unsupported("tactic applied to a non-formula")
+            g = VOpaque("z3 goal")
+            g.kind = "goal"
+            g.formula = fv
+            return g
         if not isinstance(f, VCallable):
             raise Unsupported(f"call of {f.ty}")
         if any(isinstance(a, ast.Starred) for a in node.args) or any(k.arg is None for k in node.keywords):
